@@ -844,6 +844,38 @@ func DischargeAll(all []*VC, pre string, dir string, timeoutS int, needTwo bool,
 		stats.mu.Lock()
 		stats.Calls["(retried with more time)"] += len(again)
 		stats.mu.Unlock()
+	} else if len(again) > 12 && len(again) <= 48 {
+		// many left: more likely a loaded machine than many hard queries - the ones the solvers
+		// were still working on are tried again, with more time and fewer at once
+		var tos []*VC
+		for _, vc := range again {
+			tos = append(tos, vc)
+		}
+		dischargeEach(tos, pre, dir, 3*timeoutS, needTwo, 6)
+		stats.mu.Lock()
+		stats.Calls["(retried with more time)"] += len(tos)
+		stats.mu.Unlock()
+	}
+	// and what the solvers were STILL WORKING ON when even that ran out (a timeout, not an
+	// "unknown") gets one long attempt: solver time depends on the load of the machine, a verdict
+	// must not (seen with the cyclic-index invariants of client.topology.NextReadEndpoint, decided in
+	// 5-20 s on an idle machine and not in 30 s next to a dozen other solver processes)
+	var last []*VC
+	for _, vc := range again {
+		if vc.Result == "timeout" && !vc.ExpectSat {
+			vc.Result, vc.Solver = "", ""
+			last = append(last, vc)
+		}
+	}
+	if len(last) > 0 && len(last) <= 24 && timeoutS <= 15 {
+		dischargeEach(last, pre, dir, 9*timeoutS, needTwo, 4)
+		stats.mu.Lock()
+		stats.Calls["(retried with the longest timeout)"] += len(last)
+		stats.mu.Unlock()
+	} else {
+		for _, vc := range last {
+			vc.Result = "timeout"
+		}
 	}
 }
 
